@@ -303,8 +303,22 @@ def content_equality(rep: Report, prog: Program) -> None:
                     {n.func.attr for n in own_nodes(f.node) if isinstance(n, ast.Call) and isinstance(n.func, ast.Attribute) and isinstance(n.func.value, ast.Name) and n.func.value.id == who}
             miss = [sorted(g)[0] for g in groups if not (g & reads)]
             rep.ob(rule, f.fq(), f"{cname}.__eq__ reads {[sorted(g)[0] for g in groups]} of `{who}`", f.loc(), not miss, f"read: {sorted(reads)}" + (f"; not compared: {miss}" if miss else ''))
+        # equality is about the tensor a factor denotes: weights are compared through the tensor interface, not through the
+        # storage layout (physical / paxes / vaxes / default differ between equal tensors and agree between different ones)
+        raw = [n for n in ast.walk(f.node) if isinstance(n, ast.Attribute) and n.attr in ('physical', 'paxes', 'vaxes') and isinstance(n.ctx, ast.Load)]
+        if cname.endswith('Factor'):
+            rep.ob(rule, f.fq(), f"{cname}.__eq__ compares weights as tensors, not their storage", f.loc(), not raw,
+                   'no access to the storage layout' if not raw else f"reads `{norm(raw[0])}`: two factors with the same dense weights but different sparsity patterns compare unequal, and a tensor compares equal to its transpose")
         same_type = any(isinstance(n, ast.Compare) and 'type(' in norm(n) for n in own_nodes(f.node)) or any(isinstance(n, ast.Call) and callee_last(n) == 'isinstance' for n in own_nodes(f.node))
         rep.ob(rule, f.fq(), f"{cname}.__eq__ requires the same class", f.loc(), same_type, '')
+    # __eq__ / __ne__ as truth tables over their identity, class and component conditions
+    from ..rules.eqtable import check_eq, check_ne
+    n_eq = 0
+    for mod in ('fggs.domains', 'fggs.factors'):
+        for c in prog.module(mod).classes.values():
+            if '__eq__' in c.methods: n_eq += check_eq(rep, 'C20-D3 equality truth table', c.methods['__eq__'])
+            if '__ne__' in c.methods: n_eq += check_ne(rep, 'C20-D3 equality truth table', c.methods['__ne__'])
+    rep.floor('C20-D3 equality methods', n_eq, 8)
     fd = prog.cls('fggs.domains', 'FiniteDomain')
     init = fd.methods['__init__']
     p0 = init.positional_params()[1]
